@@ -1319,6 +1319,7 @@ class Compiler:
         "*": OpCode.MUL,
         "/": OpCode.DIV,
         "%": OpCode.MOD,
+        "**": OpCode.POW,
         "&": OpCode.BAND,
         "|": OpCode.BOR,
         "^": OpCode.BXOR,
